@@ -30,7 +30,8 @@ RULE = ("spelling pools are DERIVED from the live tables (every name of FG_COLOR
 ASSUMPTIONS = ["'malformed' in the oracle means malformed under every reasonable reading: unknown names/keys, two different values "
                "for one attribute, wrong types, numbers out of range. Spellings the code merely rejects today (keyword colour "
                "names in another case, 'on_x' as a bg= value, whitespace variants, a repeated mention with the same value, "
-               "None as 'not given', case variants of keyword names) are compared with the model at representation level only",
+               "None as 'not given' (for every attribute and style=), upper-case positional names - the documentation "
+               "shows lower-case names only, the code lower-cases them -, case variants of keyword names) are compared with the model at representation level only",
                "texts contain no ESC (a str argument of fmtstr would be parsed for escape sequences; C05/C17)",
                "keyword names are distinct (a repeated keyword is a TypeError at the call site, before parse_args runs)",
                "copy_with_new_str is specified by the statement only for uniformly formatted strings (at least one "
@@ -127,8 +128,8 @@ def accepted_name(x):
 def spellings_fg(name, num):
     n = {"fg": num}
     out = [dict(pos=[S(name)], kw=[], func=None, named=n, sp="pos"),
-           dict(pos=[S(name.upper())], kw=[], func=None, named=n, sp="POS"),
-           dict(pos=[S(name.capitalize())], kw=[], func=None, named=n, sp="Pos"),
+           dict(pos=[S(name.upper())], kw=[], func=None, named=n, sp="POS", unfixed=True),
+           dict(pos=[S(name.capitalize())], kw=[], func=None, named=n, sp="Pos", unfixed=True),
            dict(pos=[], kw=[["fg", S(name)]], func=None, named=n, sp="kwname"),
            dict(pos=[], kw=[["fg", V(num)]], func=None, named=n, sp="kwnum"),
            dict(pos=[], kw=[["style", S(name)]], func=None, named=n, sp="style=")]
@@ -141,8 +142,8 @@ def spellings_bg(name, fgnum):
     num = fgnum + 10
     n = {"bg": num}
     out = [dict(pos=[S("on_" + name)], kw=[], func=None, named=n, sp="pos"),
-           dict(pos=[S("ON_" + name.upper())], kw=[], func=None, named=n, sp="POS"),
-           dict(pos=[S("on_" + name.upper())], kw=[], func=None, named=n, sp="Pos"),
+           dict(pos=[S("ON_" + name.upper())], kw=[], func=None, named=n, sp="POS", unfixed=True),
+           dict(pos=[S("on_" + name.upper())], kw=[], func=None, named=n, sp="Pos", unfixed=True),
            dict(pos=[], kw=[["bg", S(name)]], func=None, named=n, sp="kwname"),
            dict(pos=[], kw=[["bg", V(num)]], func=None, named=n, sp="kwnum"),
            dict(pos=[], kw=[["style", S("on_" + name)]], func=None, named=n, sp="style=")]
@@ -158,12 +159,13 @@ def spellings_style(s, val):
     if not val:
         return [dict(pos=[], kw=[[s, V(False)]], func=None, named=n, sp="kwFalse")]
     return [dict(pos=[S(s)], kw=[], func=None, named=n, sp="pos"),
-            dict(pos=[S(s.upper())], kw=[], func=None, named=n, sp="POS"),
+            dict(pos=[S(s.upper())], kw=[], func=None, named=n, sp="POS", unfixed=True),
             dict(pos=[], kw=[[s, V(True)]], func=None, named=n, sp="kwTrue"),
             dict(pos=[], kw=[["style", S(s)]], func=None, named=n, sp="style="),
             dict(pos=[], kw=[], func=s, named=n, sp="func"),
-            dict(pos=[S(s), S(s)], kw=[], func=None, named=n, sp="pos-twice"),
-            dict(pos=[S(s)], kw=[[s, V(True)]], func=None, named=n, sp="pos+kwTrue")]
+            # a repeated mention with the SAME value: accepted for styles today, rejected for colours - not fixed by the statement
+            dict(pos=[S(s), S(s)], kw=[], func=None, named=n, sp="pos-twice", unfixed=True),
+            dict(pos=[S(s)], kw=[[s, V(True)]], func=None, named=n, sp="pos+kwTrue", unfixed=True)]
 
 
 def combine(a, b):
@@ -205,18 +207,18 @@ def singles():
 # at representation level (a maintainer could start accepting them without breaking the property).
 MALFORMED_POS = [[S(x)] for x in ("rad", "reddish", "on_", "on_rad", "", "fg", "bg", "style", "bright_red", "on_bold",
                                    "on_on_red", "red,blue", "True", "on_31", "nope")] + \
-                [[V(5)], [V(None)], [V(True)], [V(31)], [V(1.0)], [O("bytes")], [O("strlist")], [O("tuple")]]
-MALFORMED_KW = [[["fg", v]] for v in (S("rad"), S("reddish"), S(""), V(29), V(38), V(40), V(0), V(-31), V(131), V(99),
+                [[V(5)], [V(True)], [V(31)], [V(1.0)], [O("bytes")], [O("strlist")], [O("tuple")]]
+MALFORMED_KW = [[["fg", v]] for v in (S("rad"), S("reddish"), S(""), V(29), V(38), V(39), V(40), V(49), V(90), V(97), V(0), V(-31), V(131), V(99),
                                       V(True), V(False), V(31.0), V(3.5), O("list"), O("tuple"), O("bytes"), O("dict"),
                                       O("object"), O("complex"), O("nested"))] + \
-               [[["bg", v]] for v in (S("rad"), V(31), V(48), V(39), V(4), V(True), V(41.0),
+               [[["bg", v]] for v in (S("rad"), V(31), V(30), V(48), V(39), V(49), V(100), V(4), V(True), V(41.0),
                                       O("dict"), O("list"), O("object"))] + \
-               [[[s, v]] for s, v in (("bold", V(1)), ("bold", V(0)), ("bold", V(None)), ("bold", S("maybe")), ("bold", S("bold")),
+               [[[s, v]] for s, v in (("bold", V(1)), ("bold", V(0)), ("bold", S("maybe")), ("bold", S("bold")),
                                       ("bold", V(1.0)), ("bold", O("list")), ("underline", V(4)), ("invert", S("")),
-                                      ("blink", O("object")), ("dark", V(2)), ("italic", V(None)))] + \
+                                      ("blink", O("object")), ("dark", V(2)))] + \
                [[[k, v]] for k, v in (("color", S("red")), ("foreground", S("red")), ("underlined", V(True)),
                                       ("strike", V(True)), ("bright", V(True)))] + \
-               [[["style", v]] for v in (V(5), V(None), V(True), S("rad"), O("strlist"), S(""), V(31), V(1.0))]
+               [[["style", v]] for v in (V(5), V(True), S("rad"), O("strlist"), S(""), V(31), V(1.0))]
 CONTRADICTIONS = [
     ([S("red"), S("blue")], []), ([S("red")], [["fg", S("blue")]]), ([S("red")], [["fg", V(34)]]),
     ([S("red")], [["style", S("blue")]]), ([S("on_red"), S("on_blue")], []),
@@ -234,7 +236,10 @@ REJECTED_SPELLINGS = [(p, []) for p in ([S("onred")], [S("on red")], [S(" red")]
     [([], [[k, v]]) for k, v in (("fg", S("RED")), ("fg", S("Red")), ("fg", S("on_red")), ("fg", S("31")), ("fg", S(" red")),
                                  ("fg", V(None)), ("bg", S("on_red")), ("bg", S("RED")), ("bg", S("ON_BLUE")), ("bg", V(None)),
                                  ("bg", S("44")), ("BOLD", V(True)), ("Fg", S("red")), ("fg ", V(31)), ("on_red", V(True)),
-                                 ("red", V(True)), ("style", S("RED ")), ("style", S(" bold")))] + \
+                                 ("red", V(True)), ("style", S("RED ")), ("style", S(" bold")),
+                                 # None as "not given": one classification for every attribute and for style=
+                                 ("bold", V(None)), ("italic", V(None)), ("underline", V(None)), ("style", V(None)))] + \
+    [([V(None)], [])] + \
     [([S("red"), S("red")], []), ([S("red")], [["fg", S("red")]]), ([S("red")], [["fg", V(31)]]), ([S("red")], [["style", S("red")]]),
      ([S("RED"), S("red")], []), ([S("on_red")], [["bg", V(41)]]), ([S("on_red")], [["bg", S("red")]]),
      ([S("on_red"), S("ON_RED")], []), ([S("red")], [["fg", V(None)]]), ([S("bold")], [["bold", V(None)]])]
@@ -245,8 +250,10 @@ REJECTED_FUNC = [("red", [], [["fg", V(31)]]), ("on_red", [S("on_red")], []), ("
 def mk_cases(ctx):
     cases = []
     sing = singles()
-    for (ln, lay), sp in itertools.product(LAYOUTS, sing):
-        cases.append(dict(op="apply", lay=ln, f=lay, spec=sp, valid=True))
+    allsing = sing
+    for (ln, lay), sp in itertools.product(LAYOUTS, allsing):
+        cases.append(dict(op="apply", lay=ln, f=lay, spec=sp, valid=None if sp.get("unfixed") else True))
+    sing = [sp for sp in allsing if not sp.get("unfixed")]     # every combined / nested / random pool: fixed spellings only
     ncol = 8 if ctx.thorough else 3
     keep = lambda sp: all((k not in ("fg", "bg")) or v in ([30, 31, 37, 40, 44, 47][:6] if ncol == 3 else range(100))
                           for k, v in sp["named"].items())
@@ -273,7 +280,7 @@ def mk_cases(ctx):
     for a, b in itertools.product(npool, npool):
         cases.append(dict(op="nest", lay="multi", f=LAYOUTS[0][1], specs=[a, b], valid=True))
         nn += 1
-    covered = {sp["func"] for sp in sing if sp["func"]}
+    covered = {sp["func"] for sp in allsing if sp["func"]}
     for fn in FUNCS:
         if fn not in covered:
             ctx.note("fmtfuncs helper %r is not a colour / on_colour / style name: only compared with the model" % fn)
@@ -297,6 +304,14 @@ def mk_cases(ctx):
         cases.append(dict(op="parse", pos=pos, kw=kw, valid=False))
     for fn, pos, kw in MALFORMED_FUNC:
         cases.append(dict(op="apply", lay="one", f=LAYOUTS[1][1], spec=dict(pos=pos, kw=kw, func=fn, named=None, sp="malformed-func"), valid=False))
+    # every colour NUMBER that is not a value of the live table (reset codes 39/49, bright 90-107, the other table's range)
+    nnum = 0
+    for key, live in (("fg", LIVE_FG), ("bg", LIVE_BG)):
+        for n in range(-1, 110):
+            if n not in live.values():
+                cases.append(dict(op="parse", pos=[], kw=[[key, V(n)]], valid=False))
+                nnum += 1
+    ctx.exhaustive.append("out-of-range colour numbers -1..109 minus the live values, fg and bg: %d" % nnum)
     ctx.exhaustive.append("malformed catalogue: %d specifications x 3 layouts + parse_args directly + %d through fmtfuncs" % (len(mal), len(MALFORMED_FUNC)))
     # spellings the code rejects today without them being malformed: valid=None = no oracle verdict, representation tie
     for pos, kw in REJECTED_SPELLINGS:
@@ -304,9 +319,9 @@ def mk_cases(ctx):
         cases.append(dict(op="apply", lay="one", f=LAYOUTS[1][1], spec=dict(pos=pos, kw=kw, func=None, named=None, sp="rejected-spelling"), valid=None))
     for fn, pos, kw in REJECTED_FUNC:
         cases.append(dict(op="apply", lay="one", f=LAYOUTS[1][1], spec=dict(pos=pos, kw=kw, func=fn, named=None, sp="rejected-spelling"), valid=None))
-    for sp in sing:
+    for sp in allsing:
         if sp["func"] is None:
-            cases.append(dict(op="parse", pos=sp["pos"], kw=sp["kw"], valid=True, named=sp["named"]))
+            cases.append(dict(op="parse", pos=sp["pos"], kw=sp["kw"], valid=None if sp.get("unfixed") else True, named=sp["named"]))
     # unicode case mapping: tie only (whether 'blacK' is a known name is CPython's str.lower)
     for s in ("blacK", "on_blacK", "İn_red", "darK", "RED", "on_reḌ"):
         cases.append(dict(op="parse", pos=[S(s)], kw=[], valid=None))
@@ -511,7 +526,22 @@ def shown(r, exp):
 def _oracle(c):
     op = c["op"]
     if "valid" in c and c["valid"] is None:
-        return None                           # outside what the statement fixes: model = code is compared, nothing judged
+        # a spelling the statement does not fix (upper-case positional names, a repeated mention with the same value,
+        # None, ...): the code may accept it or reject it - but if it rejects, with ValueError, and if it accepts a
+        # spelling whose meaning is plain, with exactly that meaning
+        named = c["spec"].get("named") if op == "apply" else c.get("named")
+        try:
+            r = run_impl(c)
+        except ValueError as e:
+            return None if not isinstance(e, UnicodeError) else "unfixed spelling raised %s" % type(e).__name__
+        except Exception as e:  # noqa: BLE001
+            return "unfixed spelling raised %s instead of being accepted or ValueError" % type(e).__name__
+        if named is None:
+            return None
+        if op == "parse":
+            return None if r == named else "parse_args returned %r, the spelling can only mean %r" % (r, named)
+        exp = override(cells_before(c["f"]), named)
+        return None if cells(r) == exp else "accepted spelling applied %r, it can only mean %r" % (cells(r), exp)
     try:
         r = run_impl(c)
         exc = None
